@@ -336,25 +336,30 @@ def run(tier):
         "servers, the beacon-node interfaces and the bid strategy; steps of a history run one after the other")
     # VERIF_C11_PART=wired|fakes runs one half only (a development aid on a loaded machine; a run for the record sets nothing)
     part = os.environ.get("VERIF_C11_PART", "")
-    with ThreadPoolExecutor(max_workers=4) as ex:      # model checking and scenario generation side by side
+    def wired_part(f_wsc):
+        # the wired family runs beside the model checking (its replay directories are numbered from 101; nothing else
+        # saves a replay while it runs)
+        wsc = f_wsc.result()
+        orig = vf.save_replay
+        vf.save_replay = lambda pid, n, *a: orig(pid, n + 100, *a)
+        try:
+            vf.conformance(v, wsc, wired_driver, WIRED_TRACE[0], WIRED_TRACE[1], sig_of, wired_nontrivial, tlc_timeout=900,
+                           chunk=250, max_failures=3, heap="1g")
+        finally:
+            vf.save_replay = orig
+
+    with ThreadPoolExecutor(max_workers=5) as ex:      # model checking, scenario generation and the wired family side by side
         f_sc = ex.submit(scenarios, tier) if part != "wired" else None
         f_wsc = ex.submit(wired_scenarios, tier, 1000001) if part != "fakes" else None
         f_res = ex.submit(resolve_design_checks, v, tier) if part != "fakes" else None
+        f_w = ex.submit(wired_part, f_wsc) if f_wsc else None
         if part != "wired":
             design_checks(v, tier)
         for r in (f_res.result() if f_res else []):
             v.add_mc(r)
         sc = f_sc.result() if f_sc else []
-        wsc = f_wsc.result() if f_wsc else []
-    # the wired family first (seconds); its replay directories are numbered from 101
-    orig = vf.save_replay
-    vf.save_replay = lambda pid, n, *a: orig(pid, n + 100, *a)
-    try:
-        if wsc:
-            vf.conformance(v, wsc, wired_driver, WIRED_TRACE[0], WIRED_TRACE[1], sig_of, wired_nontrivial, tlc_timeout=900,
-                           chunk=200, max_failures=3, heap="1g")
-    finally:
-        vf.save_replay = orig
+        if f_w:
+            f_w.result()
     if sc:
         vf.conformance(v, sc, driver, TRACE[0], TRACE[1], sig_of, nontrivial, tlc_timeout=1500, chunk=150, heap="2g")
     v.coverage["rule"] = ("input sequences defined by Scen_BlockRelay_C11.tla: every failure combination of one round per "
